@@ -168,7 +168,8 @@ prop("C09",
           "of it; chunkdur values; optional eccp_cenc/eccp_cbcs; request instant before the advertised availability time, between it and the "
           "segment end (paced, real time), or after the end). A recording ResponseWriter timestamps every flush. Oracle: body parses into the "
           "same samples (times, durations, flags, payload) as the whole-segment response, styp on the first chunk only, chunks contiguous "
-          "with the segment's number, no chunk longer than segment duration - ato + one sample, one flush per chunk, no chunk flushed before "
+          "with the segment's number, no chunk longer than segment duration - ato + one sample, with DRM a senc box with one entry per sample "
+          "in every chunk, one flush per chunk, no chunk flushed before "
           "its media end minus 2 ms (one-sided), request before the advertised availability time -> 425. Non-trivial = a response with >= 2 "
           "chunks (paced: of which >= 1 had to wait); distinct by hash of the case.",
      quick=dict(shards=2, timeout=400), thorough=dict(shards=16, timeout=1500, pct=300),
@@ -181,7 +182,9 @@ prop("C15",
           "started: scanning, writing (twice: files must be byte-identical), cache-loaded. Every MPD (3 types), init, newest media segment of "
           "every representation (plus ClearKey init/segment) and /assets are compared between the scanning and the cache-loaded server: "
           "identical status/content-type/body, or 404 for an asset whose cache is damaged, or the server refuses to start; inadmissible assets "
-          "are served by no server; the cache-loaded SegmentTimelines over two loops are contiguous. Non-trivial = a case with a damaged "
+          "are served by no server (incl. a non-ms loop described by a $Number$ MPD with @duration in seconds and no @timescale); the "
+          "SegmentTimeline MPD of every served asset (incl. layouts whose raw files have a hole at the first segment boundary) is contiguous "
+          "on both servers and its listed segments are served. Non-trivial = a case with a damaged "
           "cache file or an inadmissible asset; distinct by hash of the case.",
      quick=dict(shards=4, timeout=400), thorough=dict(shards=16, timeout=1500, pct=500), assumptions=COMMON)
 
@@ -214,7 +217,7 @@ prop("C17",
           "per track in order / with gaps / with duplicates / shuffled / with one late track, merged into one interleaving by drawn choices; "
           "optionally a catch-up suffix of window+5 fresh consecutive numbers on every track. After every upload the hook VerifQuiesce gives a "
           "defined observation point and the invariant is evaluated: accepted upload stored under track/<seq> with the uploaded content "
-          "(text: rescaled time), MPD file a complete document, same contiguous range in every adaptation set, every listed number stored "
+          "(text: rescaled time), MPD file a complete document (also for a poller that reads it while the uploads go on), same contiguous range in every adaptation set, every listed number stored "
           "for every track with equal (t,d), every track represented, newest listed number never decreases, buffers/counters/storage within "
           "the window implied by tsbd, and after the catch-up the newest listed number is the last one. The thorough tier adds all 70 "
           "interleavings of 2 tracks x 4 segments. Non-trivial = a schedule where two tracks are >= 2 segments apart, or with a gap/duplicate.",
